@@ -162,7 +162,7 @@ PROPS = {
             'BufWriter<File>::write_all appends its whole buffer on Ok (ghost log shim in unit csvdump); flushing/renaming in on_complete is not under contract (lane N reads the renamed files)',
             'std::io::Read::read_exact and byteorder read_u8/u16/u32/u64::<LittleEndian> consume exactly their bytes (shim trait Read in unit reader; LE decoders Kani-validated)',
             'read_txs / read_merkle_branch: `(0..n).map(|_| E).collect()` is read as the loop it denotes (idiom I28: push E? n times, first Err returned) and proved with an inductive invariant; additionally a bounded Kani harness on the real code',
-            'rayon into_par_iter().map().collect() preserves order (Block::new, EvaluatedTx::new)',
+            'Block::new, EvaluatedTx::new, From<RawTx>, EvaluatedTxOut::eval_script are under contract in unit proto (every field kept, each output typed from its own script, txid = sha256d of the witness-stripped form, in block order); rayon into_par_iter().map(f).collect() is read as the ordered sequential map it denotes (idiom I29: order preservation of indexed parallel iterators is rayon\'s documented contract, assumed)',
             'sha256d primitive (uninterpreted)',
         ],
     },
